@@ -11,6 +11,44 @@ pub use cache::Cache;
 use search_graph::{DepthFirstNumber, SearchGraph};
 use stack::{Stack, StackDepth};
 
+/// Verification hook (add-only; compiled only with `--cfg chalk_verif`): a per-thread work
+/// counter ticked at every `solve_goal` entry and at every iteration of the loop in
+/// `solve_new_subgoal`, with an optional budget. When the budget is exceeded the tick panics
+/// with the payload `verif-work-budget-exceeded`.
+#[cfg(chalk_verif)]
+pub mod verif {
+    use std::cell::Cell;
+
+    pub const BUDGET_PANIC: &str = "verif-work-budget-exceeded";
+
+    thread_local! {
+        static WORK: Cell<u64> = Cell::new(0);
+        static BUDGET: Cell<u64> = Cell::new(u64::MAX);
+    }
+
+    /// Sets the counter to zero and installs the budget (`None` = unlimited).
+    pub fn reset(budget: Option<u64>) {
+        WORK.with(|w| w.set(0));
+        BUDGET.with(|b| b.set(budget.unwrap_or(u64::MAX)));
+    }
+
+    /// Number of ticks since the last `reset`.
+    pub fn work() -> u64 {
+        WORK.with(|w| w.get())
+    }
+
+    pub(super) fn tick() {
+        let n = WORK.with(|w| {
+            let n = w.get() + 1;
+            w.set(n);
+            n
+        });
+        if n > BUDGET.with(|b| b.get()) {
+            panic!("{}", BUDGET_PANIC);
+        }
+    }
+}
+
 pub(super) struct RecursiveContext<K, V>
 where
     K: Hash + Eq + Debug + Clone,
@@ -124,6 +162,9 @@ where
         solver_stuff: impl SolverStuff<K, V>,
         should_continue: impl std::ops::Fn() -> bool + Clone,
     ) -> V {
+        #[cfg(chalk_verif)]
+        verif::tick();
+
         // First check the cache.
         if let Some(cache) = &self.cache {
             if let Some(value) = cache.get(goal) {
@@ -213,6 +254,9 @@ where
         // the function which maps the loop iteration to `answer` is a nondecreasing function
         // so this function will eventually be constant and the loop terminates.
         loop {
+            #[cfg(chalk_verif)]
+            verif::tick();
+
             let minimums = &mut Minimums::new();
             let current_answer = solver_stuff.solve_iteration(
                 self,
